@@ -203,6 +203,10 @@ class Ctx:
         with open(path, 'w') as f:
             f.write(text)
         rc, out = sh(['timeout', str(timeout), 'coqc'] + self.coq_args() + [path], timeout=timeout + 20, cwd=self.build)
+        if rc == 124:
+            # a time-out says something about the machine's load, not about the proof: one more attempt with three times the budget
+            self.log('coqc %s timed out after %ds; retrying once with %ds' % (name, timeout, 3 * timeout))
+            rc, out = sh(['timeout', str(3 * timeout), 'coqc'] + self.coq_args() + [path], timeout=3 * timeout + 20, cwd=self.build)
         return rc == 0, out
 
     def coqc_many(self, files, timeout=300):
